@@ -273,8 +273,8 @@ def run(ctx):
                        "distinct = canonical JSON")
     ex = cf.ThreadPoolExecutor(max_workers=6)
     # vacuity guards and the predictions under the known deviations (singly, then together) run beside the Go pipeline
-    guards = [ex.submit(ctx.mc_expect_violation, "mc/MC_Views", consts={"Deviations": '{"%s"}' % d}, label="MC dev " + d.split(".")[1][:24], workers=2)
-              for d in ["views.leak_all_attributes"] + KNOWN_DEVIATIONS]
+    guards = [ex.submit(ctx.mc_expect_violation, "mc/MC_Views", consts={"Deviations": '{"%s"}' % d, "ReqModes": m}, label="MC dev " + d.split(".")[1][:24], workers=2)
+              for d, m in [("views.leak_all_attributes", '{"base"}')] + [(d, DEVIATION_REQ_MODES) for d in KNOWN_DEVIATIONS]]
     descs, vectors = gen_vectors(ctx)
     combos = [[d] for d in KNOWN_DEVIATIONS] + [KNOWN_DEVIATIONS]
     explain = [(devs, ex.submit(gen_vectors, ctx, devs, "Explain " + "+".join(d.split(".")[1][:12] for d in devs))) for devs in combos]
@@ -333,6 +333,7 @@ def run(ctx):
             ctx.sample({"cfg": c, "val": v["val"], "bad": v["bad"], "observed": o})
     ctx.cov["distinct_nontrivial"] = len(nontrivial)
     ctx.cov["exhaustive"] = True
+    ctx.cov["space"] = ("every variant, view chosen by the service and value; views fixed in the design: for the [first, base] variants only" if ctx.quick() else "every variant, view (chosen and fixed) and value")
     ctx.cov["mismatches"] = len(mismatches)
     for f in guards:
         f.result()
